@@ -384,12 +384,15 @@ def popBlock (st : St) (off : Nat) (block : Block) : St :=
   if off = 0 then { st with blocksOffset := st.blocksOffset + 1, blocks := st.blocks.tail }
   else { st with blocks := st.blocks.set off block.deallocate }
 
+/-- `self.content_md5.as_ref().map(|md5| writer.check_md5(md5)).unwrap_or(true)` -/
+def md5Valid (st : St) (w : BW) : Bool :=
+  match st.md5 with
+  | some m => w.checkMd5 m
+  | none => true
+
 /-- `writer.is_completed()`: MD5 comparison, then `complete` or `error` -/
 def finishObject (st : St) (w : BW) : St :=
-  let md5Valid := match st.md5 with
-    | some m => w.checkMd5 m
-    | none => true
-  if md5Valid then complete st else error st false
+  if md5Valid st w then complete st else error st false
 
 /-- the `while` loop of `write_blocks` -/
 def writeLoop (P : Params) : Nat → St → Nat → Rx (St × Bool)
